@@ -277,7 +277,7 @@ fn c16_build(c: &C16Case) -> Case {
     }
   };
   root.renumber();
-  Case { root, hots: vec![HotKind::Harness], hot_illformed: false, conn: None, recorders: vec![vec![]], actions }
+  Case { root, hots: vec![HotKind::Harness], hot_illformed: false, conn: None, conn_take: None, recorders: vec![vec![]], actions }
 }
 
 fn c16_check(_ctx: &Ctx, c: &C16Case) -> Report {
